@@ -366,6 +366,10 @@ def rule_null(ctx, rep):
                             todo.append(u[2])
                         else:
                             final_uses.append(u)
+                isnull = [u for u in final_uses if u[0] == "callarg" and (_callee(u[1]) or "").endswith(">::is_null")]
+                if len(isnull) == 1 and _is_null_form(F, E, A, b, B, seen, isnull[0][1]):
+                    rep.ok("R-NULL", ik, "`if p.is_null()`: every other use of the pointer lies behind the not-null edge, the null edge ends in the allocation-error path (or an Err that every caller routes there)", cfg=tag)
+                    continue
                 if len(final_uses) != 1 or final_uses[0][0] != "callarg" or _callee(final_uses[0][1]) != "<core::ptr::non_null::NonNull<T>>::new":
                     good, why = False, "the pointer returned by the allocator is used by something other than a single `NonNull::new` null test (%s)" % [u[0] + ":" + (_callee(u[1]) if u[0] == "callarg" else "") for u in final_uses]
                 else:
@@ -454,6 +458,64 @@ def _uses(b, l):
             if pl is not None and pl["l"] == l:
                 out.append(("other", "switch"))
     return out
+
+
+def _is_null_form(F, E, A, b, B, aliases, t_null):
+    """`let p = alloc(..); if p.is_null() { <error path> } <uses of p>`."""
+    from . import c03
+
+    sw = None
+    for sj, bl in enumerate(b["blocks"]):
+        tt = bl["term"]
+        if tt["k"] != "switch":
+            continue
+        c = B.condition(tt["discr"])
+        if c and c.get("call") is t_null:
+            sw = (sj, tt, c)
+    if sw is None:
+        return False
+    sj, tt, c = sw
+    null_t = [tg for tg, tv in B.switch_truth(tt).items() if tv != c["neg"]]
+    ok_t = [tg for tg, tv in B.switch_truth(tt).items() if tv == c["neg"]]
+    if len(null_t) != 1 or len(ok_t) != 1:
+        return False
+    # every other use of the pointer is reachable only through the not-null edge
+    nb = next(i for i, bl in enumerate(b["blocks"]) if bl["term"] is t_null)
+    for ui, bl in enumerate(b["blocks"]):
+        if ui == nb:
+            continue
+        used = False
+        for s in bl["stmts"]:
+            if s["k"] == "assign":
+                rv = s["rv"]
+                for o in [rv.get("op"), rv.get("a"), rv.get("b")] + list(rv.get("ops") or []):
+                    pl = operand_place(o) if o else None
+                    if pl is not None and pl["l"] in aliases:
+                        used = True
+                if rv["k"] in ("ref", "rawptr") and rv["place"]["l"] in aliases:
+                    used = True
+        t2 = bl["term"]
+        if t2["k"] == "call":
+            for a in t2["args"]:
+                pl = operand_place(a)
+                if pl is not None and pl["l"] in aliases:
+                    used = True
+        if used:
+            # (uses that merely carry the pointer to the test - moves into an alias before the call - sit before the switch)
+            if ui in B.dominators().get(sj, set()) or ui == sj:
+                continue
+            if c03.reachable_without(B, {(sj, ok_t[0])}, set(), ui):
+                return False
+    # the null edge: a diverging call, or a return of the failure that every caller routes to the allocation-error path
+    reach = B.reach(null_t[0], normal_only=True) - B.reach(ok_t[0], normal_only=True)
+    rets = [r for r in reach if b["blocks"][r]["term"]["k"] == "return"]
+    div = any(b["blocks"][r]["term"]["k"] == "call" and model.classify(_callee(b["blocks"][r]["term"]) or "")[0] == model.DIVERGE for r in reach)
+    if rets or (B.reach(null_t[0], normal_only=True) & B.reach(ok_t[0], normal_only=True) and not div):
+        ot = F.ty(b["output"]) if "output" in b else {}
+        if ot.get("path") not in ("core::result::Result", "core::option::Option"):
+            return False
+        return _callers_diverge_on_err(F, E, A, b["key"])
+    return div
 
 
 def _match_none_diverges(F, b, B, opt_locals, fail_value=0):
